@@ -1429,6 +1429,11 @@ where
                 // so the WitnessChecks bus stays balanced.
                 let saved_ctl = self.recompose_coeff_ctl_for_decompose_links;
                 self.recompose_coeff_ctl_for_decompose_links = false;
+                // `connect` merges select provenance, so the record of `x` can name `x` itself
+                // (or a target whose own record leads back to `x`) as a branch. Take the record
+                // out while the branches are decomposed: a re-entrant call for `x` then takes
+                // the hint path instead of recursing forever.
+                self.ext_select_sources.remove(&x);
                 let t_coeffs = match t_coeffs_opt {
                     Some(c) => c,
                     None => self.decompose_ext_to_base_coeffs::<BF>(t)?,
@@ -1437,6 +1442,7 @@ where
                     Some(c) => c,
                     None => self.decompose_ext_to_base_coeffs::<BF>(s)?,
                 };
+                self.ext_select_sources.insert(x, (b, t, s));
                 self.recompose_coeff_ctl_for_decompose_links = saved_ctl;
                 debug_assert_eq!(t_coeffs.len(), F::DIMENSION);
                 debug_assert_eq!(s_coeffs.len(), F::DIMENSION);
